@@ -19,18 +19,18 @@ use crate::c08::*;
 /// logic.
 
 #[test]
-fn kani_concrete_playback_c08_quantile_single_valid_opti32_n1_12317269618123150893() {
+fn kani_concrete_playback_c08_quantile_single_valid_opti32_n1_7036451615313357579() {
     let concrete_vals: Vec<Vec<u8>> = vec![
-        // 0
-        vec![0, 0, 0, 0],
+        // -1
+        vec![255, 255, 255, 255],
         // 1
         vec![1],
         // 0ul
         vec![0, 0, 0, 0, 0, 0, 0, 0],
         // 2ul
         vec![2, 0, 0, 0, 0, 0, 0, 0],
-        // 0
-        vec![0],
+        // 2
+        vec![2],
     ];
     kani::concrete_playback_run(concrete_vals, c08_quantile_single_valid_opti32_n1);
 }
@@ -51,18 +51,18 @@ fn kani_concrete_playback_c08_quantile_single_valid_opti32_n1_123172696181231508
 /// logic.
 
 #[test]
-fn kani_concrete_playback_c08_quantile_single_valid_opti32_n1_18003917507952099783() {
+fn kani_concrete_playback_c08_quantile_single_valid_opti32_n1_6763074622124178953() {
     let concrete_vals: Vec<Vec<u8>> = vec![
-        // 0
-        vec![0, 0, 0, 0],
+        // 2
+        vec![2, 0, 0, 0],
         // 1
         vec![1],
         // 1ul
         vec![1, 0, 0, 0, 0, 0, 0, 0],
         // 2ul
         vec![2, 0, 0, 0, 0, 0, 0, 0],
-        // 0
-        vec![0],
+        // 2
+        vec![2],
     ];
     kani::concrete_playback_run(concrete_vals, c08_quantile_single_valid_opti32_n1);
 }
